@@ -10,6 +10,8 @@ import Nq.Dns
 import Nq.Users
 import Nq.Spawn
 import Nq.Gen.C20Bounds
+import Nq.FixedBuf
+import Nq.Gen.Consts
 
 open Nq Drv
 
@@ -320,6 +322,68 @@ def handleR (st : Stats) (f : List String) (inp : String) : IO Stats := do
     | _, _ => note st "DISAGREE" true s!"kind=report unparsable in={inp}"
   | _ => note st "DISAGREE" true s!"kind=report unparsable in={inp}"
 
+/-! ### F : fixed buffers (c20_fixed.c) vs Nq.FixedBuf -/
+/-- "0-5,7" / "-" → indices -/
+def parseSet (s : String) : List Nat :=
+  if s == "-" then [] else
+  (s.splitOn ",").flatMap (fun r => match r.splitOn "-" with
+    | [a] => [natOf a]
+    | [a, b] => (List.range (natOf b - natOf a + 1)).map (· + natOf a)
+    | _ => [])
+
+/-- sorted duplicate-free rendering of an index list, as the harness prints sets -/
+def renderSet (l : List Nat) : String :=
+  if l.isEmpty then "-" else
+  let m := l.foldl max 0
+  let marks := l.foldl (fun (a : Array Bool) i => a.set! i true) (Array.replicate (m + 2) false)
+  let rec go (fuel i : Nat) (start : Option Nat) (acc : List String) : List String :=
+    match fuel with
+    | 0 => acc.reverse
+    | fuel + 1 =>
+      let on := marks.getD i false
+      match start, on with
+      | none, true => go fuel (i + 1) (some i) acc
+      | none, false => go fuel (i + 1) none acc
+      | some s, true => go fuel (i + 1) (some s) acc
+      | some s, false => go fuel (i + 1) none ((if s + 1 == i then toString s else s!"{s}-{i - 1}") :: acc)
+  ",".intercalate (go (m + 2) 0 none [])
+
+open Nq.FixedBuf Nq.Gen.C20Bounds in
+def handleF (st : Stats) (f : List String) (inp : String) : IO Stats := do
+  let fin (st : Stats) (kind impl model : String) (implSet : List Nat) (size : Nat) : IO Stats := do
+    let mut st := st.bump ("F." ++ kind)
+    if impl != model then
+      st ← note st "DISAGREE" true s!"kind=fixed.{kind} in={inp} impl={impl} model={model}"
+    -- oracle (the theorems' predicate on the implementation): every index stored to is inside the array
+    if implSet.any (· ≥ size) then
+      st ← note st "ORACLE" false s!"kind=fixed.{kind} in={inp} impl={impl} store-outside-the-buffer"
+    return st
+  match f with
+  | ["qmqpd", lenS, avS, ":", rS, setS] =>
+    let len := natOf lenS; let av := natOf avS
+    let mr := match qmqpdRet qmqpdGuard len av with | some true => "1" | some false => "0" | none => "E0"
+    fin st "qmqpd" s!"{rS} {setS}" s!"{mr} {renderSet (qmqpdStores qmqpdGuard len av)}" (parseSet setS) qmqpdBuf
+  | ["qmtpd", relS, rclS, lsS, lrS, ":", sndS, rcpS] =>
+    let m1 := renderSet (qmtpdSenderStores qmtpdSenderGuard (natOf lsS))
+    let m2 := renderSet (qmtpdRcptStores qmtpdRcptGuard (natOf lrS) (natOf rclS) (relS == "1"))
+    fin st "qmtpd" s!"{sndS} {rcpS}" s!"{m1} {m2}" (parseSet sndS ++ parseSet rcpS) qmtpdBuf
+  | ["getpw", locS, ":", rS, probesS, okS] =>
+    match unhex locS with
+    | none => note st "DISAGREE" true s!"kind=fixed.getpw unparsable in={inp}"
+    | some loc =>
+      let pr := getpwProbes getpwGuard (Nq.Gen.auto_break).toUInt8 loc
+      let m := if pr.isEmpty then "-" else ",".intercalate (pr.map toString)
+      let implProbes := (commaList probesS).map natOf
+      -- each probe k stores username[0..k]: the stores are inside iff k < sizeof username
+      fin st "getpw" s!"{rS} {probesS} {okS}" s!"0 {m} 1" (implProbes.flatMap (getpwStores (getpwUserlen + 1000000))) getpwUserlen
+  | ["qq", avS, ":", lenS, setS] =>
+    let av := natOf avS
+    fin st "qq" s!"{lenS} {setS}" s!"{(errstrLoop qqErrGuard av 0).2} {renderSet (errstrStores qqErrGuard av)}" (parseSet setS) qqErrstr
+  | ["qn", nS, ":", rS, setS] =>
+    let n := natOf nS
+    fin st "qn" s!"{rS} {setS}" s!"{if n == 0 then 1 else 0} {renderSet (Nq.Stralloc.quoteNeedReads n)}" (parseSet setS) (max n 1)
+  | _ => note st "DISAGREE" true s!"kind=fixed unparsable in={inp}"
+
 /-! ### P : whole programs (c20_prog.c) -/
 def allowedExit (prog : String) (code : Int) : Bool :=
   match prog with
@@ -371,6 +435,7 @@ def handle (st : Stats) (line : String) : IO Stats := do
     | "T" => handleT st rest ("|".intercalate (f.take 6))
     | "P" => handleP st rest inp
     | "R" => handleR st rest inp
+    | "F" => handleF st rest inp
     | "X" => note (st.bump "X") "ORACLE" false s!"kind=sanitizer-abort in={"|".intercalate (rest.dropLast)} the-run-was-killed-by-ASan/UBSan"
     | _ => note st "DISAGREE" true s!"kind=unknown unparsable in={(line.take 200)}"
 
